@@ -912,9 +912,10 @@ var variants = []variant{
 	{name: "N-two-compact", compacted: true, pollMax: 3, two: true},
 }
 
-// Plans returns the C12 scenarios. Quick: every single deviation on all six
-// scenarios. Thorough: every pair of deviations (single-member scenarios also
-// every triple of faults); with two members the second deviation is a fault.
+// Plans returns the C12 scenarios. Quick: every single deviation on all seven
+// scenarios. Thorough: single member without leader move: every pair of
+// deviations and every triple of faults; with a leader move or two members:
+// every pair whose second deviation is a fault (after a fault).
 func Plans() []nrun.Plan {
 	var ps []nrun.Plan
 	for _, v := range variants {
@@ -923,7 +924,10 @@ func Plans() []nrun.Plan {
 		case v.two:
 			p.ThoroughFaultOnlyFrom = 2
 			p.Weight = 2
-		case v.moveAt == "":
+		case v.moveAt != "":
+			p.ThoroughFaultOnlyFrom = 2
+			p.Weight = 2
+		default:
 			p.ThoroughBudget, p.ThoroughFaultOnlyFrom = 3, 3
 			p.Weight = 3
 		}
